@@ -249,12 +249,25 @@ def must_separate(a, b):
     return False
 
 
+def ends_operand(t):
+    """does this token end an operand (so that a following `-digit` is the binary operator, fix F6)?"""
+    if t is None:
+        return False
+    txt, kind = t
+    if kind in ("num", "str"):
+        return True
+    if txt in (")", "]"):
+        return True
+    return kind == "word" and (txt not in KEYWORDS or txt in ("সত্য", "মিথ্যা"))
+
+
 def render(tokens, mode="lines", rng=None, keep_lines=False):
     """text of a token list.  modes: 'lines' (one statement per line, single blanks),
     'oneline', 'minimal' (no blank wherever the tokens cannot fuse), 'wild' (random mix of
     blanks, tabs, CR, CRLF and newlines, or nothing where allowed)."""
     out = []
     prev = None
+    prev2 = None
     for t in tokens:
         if t[1] == "nl":
             if mode == "lines" or keep_lines:
@@ -262,10 +275,14 @@ def render(tokens, mode="lines", rng=None, keep_lines=False):
                 prev = None
             continue
         if prev is not None:
+            need = must_separate(prev, t)
+            # `৫-১`: a `-` directly followed by a digit is the binary operator when the token before it ends an operand
+            if need and prev[0] == "-" and prev[1] != "num" and t[1] == "num" and ends_operand(prev2):
+                need = False
             if mode == "minimal":
-                sep = " " if must_separate(prev, t) else ""
+                sep = " " if need else ""
             elif mode == "wild":
-                if not must_separate(prev, t) and rng.chance(0.35):
+                if not need and rng.chance(0.35):
                     sep = ""
                 else:
                     n = rng.range(1, 3)
@@ -276,6 +293,7 @@ def render(tokens, mode="lines", rng=None, keep_lines=False):
                 sep = " "
             out.append(sep)
         out.append(t[0])
+        prev2 = prev
         prev = t
     return "".join(out)
 
